@@ -55,6 +55,13 @@ var plans = map[string]*plan{
 		Real:   realA, Stub: append([]string{"credential helper (recording stub via lfsapi.Client.Credentials, or stub programs for git credential / GIT_ASKPASS)"}, stubA...),
 		Assume: []string{"an http->https redirect on the same host name with default ports keeping the credential is not judged (ambiguous under the statement); counted as a probe", "https is only a URL scheme inside the bubble: no TLS"},
 	},
+	"C14": {
+		ID: "C14", Engine: "A", Level: "exploration",
+		Stages: []stage{{"C14.nofault", 3000, 80000}, {"C14", 9000, 300000}},
+		Rule:   "the real filter-process command body runs in the bubble against a simulated Git peer: handshake, capabilities with/without delay, then 1-40 requests over clean(path, pointer/look-alike/content payloads), smudge(pointer of 1-5 objects that are local / on the server / missing, can-delay 0/1; non-pointer bytes), list_available_blobs (also midway) and retrieval of announced blobs in tape order; payload packetisation 1..65516 bytes per packet; download queue behind delayed smudges is the real tq under the gate scheduler (batch size, concurrency, latency, storage/batch faults drawn per run). Every run is non-trivial; distinct = distinct choice trace.",
+		Real:   append([]string{"commands.filterCommand body incl. infiniteTransferBuffer/readAvailable, delayedSmudge, smudge, clean", "git.FilterProcessScanner, pktline"}, realA...), Stub: append([]string{"Git itself: a passive peer object that produces the next request when the filter reads and parses each response strictly (strict alternation as in Git's client)"}, stubA...),
+		Assume: []string{"Git's client is strictly request/response, so a passive peer loses no interleavings", "the expected content is computed by the C01/C08 reference model (the one-shot bodies are checked against the same model by C01/C08)"},
+	},
 }
 
 func runEngineB(p *plan, tier string, base uint64, workers int, scale float64, replay string) int {
